@@ -1364,7 +1364,9 @@ const D_EXC_HOSTS: [&str; 3] = ["example.com", "sub.example.com", "other.com"];
 /// the exception: an exception written for a less specific or a more specific location than the
 /// injection removes it all the same
 const D_INJ_HOSTS: [&str; 4] = ["example.com", "sub.example.com", "example.*", "sub.example.*"];
-const D_EXC_HOSTS2: [&str; 6] = ["example.com", "sub.example.com", "example.*", "sub.example.*", "other.com", "other.*"];
+// (the last two carry a negated location on an exception: a double negation, refused as a whole -
+// such a line changes nothing)
+const D_EXC_HOSTS2: [&str; 8] = ["example.com", "sub.example.com", "example.*", "sub.example.*", "other.com", "other.*", "other.com,~sub.example.*", "other.com,~sub.example.com"];
 
 // ---------------------------------------------------------------------------------------------
 // replay and driver
